@@ -168,6 +168,22 @@ def gen_expr_unit(rng):
             "input": "\n".join(jm.dumps(v) for v in inputs).encode("utf-8"), "policy": rng.choice(POLICIES)}
 
 
+EXEC_EXPRS = ['(exec "true")', '(exec "false")', '(exec "no-such-program-xyz")', '(exec "echo" .s)', '(exec "cat" .s)', '(exec "cat" .big)', '(exec 5)', '(exec)',
+              '(exec "sh" "-c" "exit 3")', '(exec "sh" "-c" "kill -9 $$")', '(exec "sh" "-c" "printf \\"\\\\377\\\\376\\"")',
+              # children that fill one pipe while the other is still open, in both orders, and both at once
+              '(exec "sh" "-c" "head -c 200000 /dev/zero >&2; echo done")', '(exec "sh" "-c" "head -c 200000 /dev/zero; echo done >&2")',
+              '(exec "sh" "-c" "head -c 150000 /dev/zero >&2 & head -c 150000 /dev/zero; wait")', '(exec "sh" "-c" "exec 1>&-; head -c 100000 /dev/zero >&2")',
+              '(exec "echo" .s .s 5 null [1] {})', '(exec "")', '(exec .s)']
+
+
+def gen_exec_unit(rng):
+    """`exec` with a fixed list of harmless commands: whatever the child does with its two pipes and its exit status, jawk
+    comes back with a value or nothing."""
+    exprs = rng.sample(EXEC_EXPRS, rng.choice((1, 2, 3)))
+    return {"kind": "expr", "pos": "select", "exprs": exprs, "funcs": ["exec"], "exec": True,
+            "input": ('{"s":"abc","big":"' + "n" * rng.choice((10, 5000, 70000, 100000)) + '"} "x" 5').encode(), "policy": rng.choice(POLICIES)}
+
+
 def expr_args(unit):
     a = ["--on-error", unit["policy"]]
     pos = unit["pos"]
@@ -240,7 +256,7 @@ def worker(ctx):
                 st.count("stopped_by_deadline")
                 break
             r = ctx.rng.random()
-            unit = gen_bytes_unit(ctx.rng) if r < 0.3 else gen_matrix_unit(ctx.rng) if r < 0.42 else gen_expr_unit(ctx.rng)
+            unit = gen_bytes_unit(ctx.rng) if r < 0.3 else gen_matrix_unit(ctx.rng) if r < 0.42 else gen_exec_unit(ctx.rng) if r < 0.425 else gen_expr_unit(ctx.rng)
             if unit["kind"] == "expr" and ctx.debug_drv is not None and ctx.rng.random() < 0.35:
                 unit["debug"] = True
             run_unit(ctx, unit)
@@ -310,7 +326,7 @@ def run(env):
     code = core.finish(PROP, env.tier, env.seed, LEVEL, stats, env.t0, RULE, min_conclusive=20000 if quick else 10 ** 6,
                        exhaustive=complete, extra=extra, extra_distinct=enumerated,
                        assumptions=["a watchdog firing or a dead driver is believed only when the single case reproduces it alone in a fresh process (60 s)",
-                                    "bounds of the property: nesting <= 64, range/collection sizes <= 10^4, decimal exponents <= 10^3; exec/trigger/now never generated"])
+                                    "bounds of the property: nesting <= 64, range/collection sizes <= 10^4, decimal exponents <= 10^3; exec only with a fixed list of harmless commands; trigger/now never generated"])
     return code
 
 
